@@ -187,6 +187,63 @@ def run_one(workdir, c):
     return c["id"], res
 
 
+def run_multi(ctx, res):
+    """several watchers on ONE command line: each observes its own selection and runs its own task with its own event"""
+    names = ["wa", "wb", "wc"]
+    d = os.path.join(ctx.workdir, "w", "multi")
+    shutil.rmtree(d, ignore_errors=True)
+    proj = os.path.join(d, "proj")
+    doc = {"tasks": {}, "watchers": {}}
+    for n in names:
+        os.makedirs(os.path.join(proj, n))
+        with open(os.path.join(proj, n, "file.txt"), "w") as fh:
+            fh.write("x\n")
+        doc["tasks"]["t" + n] = {"command": ['echo "%s ${EventName:-INIT} ${EventPath:-}" >> "$RUNS.%s"' % (n, n)]}
+        doc["watchers"][n] = {"watch": [n + "/*.txt"], "events": ["write"], "task": "t" + n}
+    with open(os.path.join(d, "cfg.json"), "w") as fh:
+        json.dump(doc, fh)
+    runs = os.path.join(d, "runs")
+    env = {"PATH": os.environ.get("PATH", "/usr/bin:/bin"), "HOME": d, "TERM": "dumb", "RUNS": runs}
+    errf = open(os.path.join(d, "stderr"), "wb")
+    p = subprocess.Popen([os.path.join(vlib.BIN, "taskctl"), "-d", "-c", os.path.join(d, "cfg.json"), "watch"] + names, cwd=proj, env=env,
+                         stdin=subprocess.DEVNULL, stdout=subprocess.DEVNULL, stderr=errf)
+    t0 = time.time()
+    while time.time() - t0 < 6 and not all(os.path.exists(runs + "." + n) for n in names) and p.poll() is None:
+        time.sleep(0.1)
+    time.sleep(1.5)
+    for n in names:
+        with open(os.path.join(proj, n, "file.txt"), "a") as fh:
+            fh.write("more\n")
+        time.sleep(2.2)
+    time.sleep(2.0)
+    early = p.poll() is not None
+    stuck = False
+    if not early:
+        p.send_signal(signal.SIGINT)
+        try:
+            p.wait(timeout=8)
+        except subprocess.TimeoutExpired:
+            p.kill()
+            p.wait()
+            stuck = True
+    errf.close()
+    err = open(os.path.join(d, "stderr"), "rb").read().decode("utf-8", "replace")
+    got = {n: [l for l in (open(runs + "." + n).read().split("\n") if os.path.exists(runs + "." + n) else []) if l.strip()] for n in names}
+    shutil.rmtree(d, ignore_errors=True)
+    res.evaluations += 1
+    res.count("multi-watch")
+    res.nontrivial_keys.add("multi-watch")
+    case = {"kind": "multi", "watchers": names, "config": doc, "ops": [["write", n + "/file.txt"] for n in names]}
+    if "panic:" in err or "fatal error:" in err or stuck:
+        res.violations.append({"class": None, "what": "several watchers on one command line: the process crashed or could not be stopped", "case": case, "observed": err[-1200:]})
+        return
+    want = {n: ["%s INIT" % n, "%s write %s/file.txt" % (n, n)] for n in names}
+    norm = {n: [" ".join(l.split()) for l in got[n]] for n in names}
+    if norm != want:
+        res.violations.append({"class": None, "what": "several watchers on one command line: each must run its own task once at start and once for the write to its own file, with that event's name and path",
+                               "case": case, "observed": {"runs": got, "exited_early": early, "stderr_tail": err[-600:]}})
+
+
 HEADER = """From Coq Require Import List Arith Bool. Import ListNotations.
 From TaskctlV Require Import Model.Glob Corr.GlobCorr.
 """
@@ -211,7 +268,15 @@ def run(ctx):
     res.rule = ("selection: random trees (<=3 levels, <=12 files) x 1..3 include and 0..2 exclude patterns over the grammar (literal segments, *, ?, ** as a "
                 "whole segment); the registered paths are read from the watcher's debug log.  histories: a fixed tree with watched, excluded and unrelated "
                 "files, every single event type / several subsets / all (none listed), 2..6 operations (write, chmod, remove, rename) on real files with "
-                "real inotify.  distinct = distinct case; non-trivial = selection with a wildcard, or a history with >= 2 operations.")
+                "real inotify; three watchers started by one `taskctl watch wa wb wc`.  distinct = distinct case; non-trivial = selection with a wildcard, or a history with >= 2 operations.")
+    if ctx.replay_cases and any(c.get("kind") == "multi" for c in ctx.replay_cases):
+        run_multi(ctx, res)
+        ctx.replay_cases = [c for c in ctx.replay_cases if c.get("kind") != "multi"]
+        if not ctx.replay_cases:
+            res.samples = [{"replayed": "multi-watch"}]
+            return res
+    elif not ctx.replay_cases:
+        run_multi(ctx, res)
     cases = ctx.replay_cases if ctx.replay_cases else gen_cases(ctx)
     for k, c in enumerate(cases):
         c["id"] = k
